@@ -16,10 +16,7 @@ package fsm
 // A panic of the FSM on an endpoint-valid command is a violation (endpoint-invalid commands are never generated).
 
 import (
-	"encoding/json"
 	"fmt"
-	"reflect"
-	"sort"
 	"testing"
 	"testing/synctest"
 	"time"
@@ -44,108 +41,6 @@ func verifSkewLabel(d time.Duration) string {
 		return "skew<60d"
 	}
 	return "skew>=60d"
-}
-
-// verifJSONDiff returns the first differing path of two canonical results and whether they are equal once every
-// list is sorted (i.e. the difference is one of ORDER only).
-func verifJSONDiff(a, b string) (path string, orderOnly bool) {
-	split := func(s string) (string, interface{}) {
-		for i := 0; i+1 < len(s); i++ {
-			if s[i] == ':' && s[i+1] == ' ' {
-				var g interface{}
-				if json.Unmarshal([]byte(s[i+2:]), &g) == nil {
-					return s[:i], g
-				}
-				break
-			}
-		}
-		return s, nil
-	}
-	ta, ga := split(a)
-	tb, gb := split(b)
-	if ta != tb {
-		return "type", false
-	}
-	if ga == nil || gb == nil {
-		return "value", false
-	}
-	path = verifDiffPath("", ga, gb)
-	return path, reflect.DeepEqual(verifSortLists(ga), verifSortLists(gb))
-}
-
-func verifDiffPath(prefix string, a, b interface{}) string {
-	switch x := a.(type) {
-	case map[string]interface{}:
-		y, ok := b.(map[string]interface{})
-		if !ok {
-			return prefix
-		}
-		keys := map[string]bool{}
-		for k := range x {
-			keys[k] = true
-		}
-		for k := range y {
-			keys[k] = true
-		}
-		var ks []string
-		for k := range keys {
-			ks = append(ks, k)
-		}
-		sort.Strings(ks)
-		for _, k := range ks {
-			if !reflect.DeepEqual(x[k], y[k]) {
-				p := k
-				if prefix != "" {
-					p = prefix + "." + k
-				}
-				return verifDiffPath(p, x[k], y[k])
-			}
-		}
-	case []interface{}:
-		y, ok := b.([]interface{})
-		if !ok || len(x) != len(y) {
-			return prefix + "[]"
-		}
-		for i := range x {
-			if !reflect.DeepEqual(x[i], y[i]) {
-				return verifDiffPath(prefix+"[]", x[i], y[i])
-			}
-		}
-	}
-	if prefix == "" {
-		return "value"
-	}
-	return prefix
-}
-
-func verifSortLists(g interface{}) interface{} {
-	switch x := g.(type) {
-	case map[string]interface{}:
-		out := map[string]interface{}{}
-		for k, v := range x {
-			out[k] = verifSortLists(v)
-		}
-		return out
-	case []interface{}:
-		out := make([]interface{}, len(x))
-		keys := make([]string, len(x))
-		for i, v := range x {
-			out[i] = verifSortLists(v)
-			b, _ := json.Marshal(out[i])
-			keys[i] = string(b)
-		}
-		idx := make([]int, len(x))
-		for i := range idx {
-			idx[i] = i
-		}
-		sort.Slice(idx, func(i, j int) bool { return keys[idx[i]] < keys[idx[j]] })
-		sorted := make([]interface{}, len(x))
-		for i, j := range idx {
-			sorted[i] = out[j]
-		}
-		return sorted
-	}
-	return g
 }
 
 // verifC01Run executes one case: plan, log on A, skew, log on B (plan.Reps times), comparison.
@@ -176,6 +71,7 @@ func verifC01Run(f verifkit.F, c *verifkit.Case, cov *verifCoverage, plan *vs.FC
 		fams.note(cmd, res)
 		if cov != nil {
 			cov.add(cmd, res.Class)
+			cov.reason(cmd, res)
 		}
 		c.Labelf("type=%s", vs.FTypeName(cmd.MsgType()))
 		if res.Class == "accepted" {
@@ -274,6 +170,7 @@ func TestVerifC01Replicas(t *testing.T) {
 		c.Done()
 		cases++
 	})
+	cov.dumpReasons(t)
 	cov.assertAllTypes(t, cases)
 }
 
